@@ -338,3 +338,46 @@ package kafka
 //@   lockassume g.routines >= 1 && !g.joined.$closed
 //@   option noframe
 //@   modifies region(Generation.closed), region(Generation.routines), region($closed)
+
+//@ property C11 C06
+
+//@ func (*Conn).enter
+//@   trusted atomic in-flight counter
+//@ func (*Conn).leave
+//@   trusted atomic in-flight counter
+//@ func (*Conn).concurrency
+//@   trusted atomic in-flight counter
+//@ func (*connDeadline).setConnReadDeadline
+//@   trusted deadline bookkeeping (time)
+//@ func (*connDeadline).unsetConnReadDeadline
+//@   trusted deadline bookkeeping (time)
+//@ func (*connDeadline).setConnWriteDeadline
+//@   trusted deadline bookkeeping (time)
+//@ func (*connDeadline).unsetConnWriteDeadline
+//@   trusted deadline bookkeeping (time)
+
+//@ func (*Conn).peekResponseSizeAndID
+//@   option noframe
+//@   modifies region($rpos)
+//@ func (*Conn).skipResponseSizeAndID
+//@   option noframe
+//@   modifies region($rpos)
+
+// C06: an operation accepts a response only if the correlation id on the wire equals the id it drew under the write lock.
+//@ func (*Conn).waitResponse
+//@   option noframe
+//@   modifies heap
+//@   ensures err == nil ==> rid == id && lock != nil
+//@   ensures err != nil ==> c.conn.$cclosed
+//@ func (*Conn).doRequest
+//@   option noframe
+//@   modifies heap
+//@   ensures err != nil ==> c.conn.$cclosed
+
+// C11: a broker-reported error (a kafka.Error somewhere in the chain) leaves the connection open; any other error of the
+// read step closes it, so a Conn is never reused after a framing or transport error.
+//@ func (*Conn).do
+//@   option noframe
+//@   modifies heap
+//@   callsite iface Conn.Close requires !spec.iskafka(err)
+//@   ensures result != nil && !spec.iskafka(result) ==> c.conn.$cclosed
